@@ -1118,7 +1118,7 @@ var c03Templates = []tmpl{
 	{"| a | XX |\n|---|:-:|\n| c | d |", 6, 2}, {"| a |\n|---|\n| XX |", 14, 2}, {"a[^1]\n\n[^1]: XX", 14, 2}, {"a[^XX]\n\n[^XX]: f", 3, 2},
 	{"t XX\n: d", 2, 2}, {"t\n: XX", 5, 2}, {"\"XX\" 'a'", 1, 2}, {"a--XX...", 3, 2}, {"- [ ] XX", 6, 2}, {"~~XX~~", 2, 2},
 	{"www.a.bXX c", 7, 2}, {"http://a.bc/XX d", 12, 2}, {"&XX;", 1, 2}, {"&#XX;", 2, 2}, {"&#xXX;", 3, 2}, {"<XX>", 1, 2}, {"<a XX>", 3, 2}, {"<!--XX-->", 4, 2},
-	{"# t {data-l=[XX]}", 13, 2}, {"# t {k=[\"XX\"]}", 9, 2}, {"# t {class=[a, \"XX\"]}", 17, 2}, {"# t {data-l=[\"a\", XX]}", 18, 2}, {"t {k=[1, XX]}\n---", 9, 2},
+	{"# t {data-l=[XX]}", 13, 2}, {"# t {data-l=[\"XX\"]}", 14, 2}, {"# t {class=[a, \"XX\"]}", 17, 2}, {"# t {data-l=[\"a\", XX]}", 18, 2}, {"t {title=[1, \"XX\"]}\n---", 14, 2}, {"# t {id=[\"XX\"]}", 10, 2}, {"# t {data-l=[\"\\XX\"]}", 15, 2},
 	{"&#x0XX;", 4, 2}, {"&#x00XX;", 5, 2}, {"&#0XX;", 3, 2}, {"&#00XX;", 4, 2}, {"&#000XX;", 5, 2}, {"&#x000XX;", 6, 2}, {"[a](u \"&#x0XX;\")", 11, 2}, {"![&#0XX;](u)", 5, 2}, {"# H {k=\"&#x0XX;\"}", 12, 2},
 	{"[a][XX]\n\n[XX]: u 't'", 4, 2}, {"[a]: u \"XX\"\n\n[a]", 8, 2}, {"`XX`", 1, 2}, {"    XX", 4, 2}, {"> XX", 2, 2}, {"1. XX", 3, 2}, {"\\XX", 1, 2},
 }
